@@ -210,7 +210,7 @@ pub fn run(ctx: &mut Ctx) {
     for (n, ok) in r9::selftest(ctx.shard == 0) {
         ctx.selftest(&n, ok);
     }
-    ctx.require(&["annex_kat", "honest_keys_equal", "tampered_keys_differ", "responder_rejects_offcurve_RA", "initiator_rejects_offcurve_RB", "tamper=RaOther", "tamper=RbOther", "tamper=RaBitflipOnCurve", "tamper=RbNeg", "klen=1", "klen=128", "parties_have_public_master_key_only", "sparse_ephemeral_scalars", "kdf_direct", "ke=H1(id)_doubling_in_Q"]);
+    ctx.require(&["annex_kat", "honest_keys_equal", "tampered_keys_differ", "responder_rejects_offcurve_RA", "initiator_rejects_offcurve_RB", "tamper=RaOther", "tamper=RbOther", "tamper=RaBitflipOnCurve", "tamper=RbNeg", "klen=1", "klen=128", "parties_have_public_master_key_only", "sparse_ephemeral_scalars", "kdf_direct", "ke=H1(id)_doubling_in_Q", "sk_all_zero_retry_path"]);
     let pr = r9::params();
     let mut paux = ctx.prng("aux");
     if ctx.shard == 0 {
@@ -241,6 +241,21 @@ pub fn run(ctx: &mut Ctx) {
                 o => ctx.violation(&format!("kdf:klen_mod32={}:{}", klen % 32, if o.is_ret() { "wrong-output" } else { o.class() }), json!({"z": hx(&z), "klen": klen})),
             }
         }
+    }
+    // --- crafted r_B for which the 1-byte SK_B is 0x00: the library redraws r_B; the run must still be a correct
+    // GM/T 0044.3 run for the r_B that was finally used
+    let sz = crate::corpus::load("sm9_sk_zero.json");
+    for (i, v) in sz["sk_zero"].as_array().unwrap().iter().enumerate() {
+        let ke = r9::from_b(&crate::corpus::hexf(v, "ke"));
+        let ra = r9::from_b(&crate::corpus::hexf(v, "rA"));
+        let rb = r9::from_b(&crate::corpus::hexf(v, "rB"));
+        let rap = r9::g1_mul(&ra, &r9::exch_q(&ke, b"Bob")).unwrap();
+        ctx.selftest(&format!("SK-all-zero witness {} reproduces in the reference", i), r9::exch_responder(&ke, b"Alice", b"Bob", &rap, &rb, 1).map(|x| x.1) == Some(vec![0u8]));
+        if !ctx.mine(i as u64) {
+            continue;
+        }
+        ctx.class("sk_all_zero_retry_path");
+        history(ctx, &ke, b"Alice", b"Bob", 1, &ra, &rb, Tamper::None, &mut paux);
     }
     let n = ctx.n(64, 3000);
     let mut prng = ctx.prng("hist");
@@ -287,4 +302,23 @@ pub fn run(ctx: &mut Ctx) {
             ctx.sample(json!({"history": wit(&ke, &ida, &idb, klen, &ra, &rb), "tamper": format!("{:?}", t)}));
         }
     }
+}
+
+/// One-time search (never run by a check): responder scalars r_B for which the 1-byte key SK_B is 0x00
+/// (the library then retries with a fresh r_B).
+pub fn tool_sk_zero_search() {
+    let ke = r9::hexn("0002E65B0762D042F51F0D23542B13ED8CFA2E9A0E7206361E013A283905E31F");
+    let ra_s = r9::hexn("00005879DD1D51E175946F23B1B41E93BA31C584AE59A426EC1046A4D03B06C8");
+    let ra = r9::g1_mul(&ra_s, &r9::exch_q(&ke, b"Bob")).unwrap();
+    let mut out = vec![];
+    let mut rb = BigUint::from(2000u32);
+    while out.len() < 2 {
+        rb += 1u32;
+        if let Some((_, sk)) = r9::exch_responder(&ke, b"Alice", b"Bob", &ra, &rb, 1) {
+            if sk == [0u8] {
+                out.push(json!({"ke": hex::encode(r9::b32(&ke)), "rA": hex::encode(r9::b32(&ra_s)), "rB": hex::encode(r9::b32(&rb)), "klen": 1}));
+            }
+        }
+    }
+    println!("{}", serde_json::to_string_pretty(&json!({"sk_zero": out})).unwrap());
 }
